@@ -1,6 +1,8 @@
 (* C09 — the sender never exceeds its window; the sequence space is strictly
    larger than the window and the bookkeeping stays inside it. *)
+From Coq Require Import String List.
 From LNC Require Import GoLite MessagesGen QueueGen Gbn Window GbnInv GbnSafety.
+From LNC Require TablesGen Tables Wakeup WakeupProofs.
 Open Scope Z_scope.
 
 (* every reachable state of the protocol model, all n in 1..254 *)
@@ -51,6 +53,38 @@ Theorem c09_size_all_values : forall q s base top,
   queue_size q = Ok (wsize s base top) /\ 0 <= wsize s base top <= s - 1.
 Proof. exact size_in_range. Qed.
 Print Assumptions c09_size_all_values.
+
+(* "blocks ... until an acknowledgement frees a slot": the freed slot is announced to the send loop by a
+   non-blocking send. Model/Wakeup.v: the send loop tests the window, then waits; the receive loop frees the
+   window, then signals; all interleavings. With a buffered signal channel the send loop is never left waiting
+   on a window that has room ... *)
+Theorem c09_buffered_signal_never_loses_a_wakeup : forall cap acks sched,
+  (cap >= 1)%nat -> let st := Wakeup.wrun cap (Wakeup.winit acks) sched in
+  Wakeup.w_free st = true -> Wakeup.stuck st = false.
+Proof. exact WakeupProofs.buffered_signal_never_stuck. Qed.
+Print Assumptions c09_buffered_signal_never_loses_a_wakeup.
+
+Theorem c09_send_loop_takes_new_data_after_the_signal : forall cap acks sched,
+  (cap >= 1)%nat -> let st := Wakeup.wrun cap (Wakeup.winit acks) sched in
+  Wakeup.w_free st = true -> Wakeup.w_rsig st = false ->
+  Wakeup.w_spc (Wakeup.wrun cap st (true :: true :: true :: nil)) = Wakeup.SProceed.
+Proof. exact WakeupProofs.buffered_signal_proceeds. Qed.
+Print Assumptions c09_send_loop_takes_new_data_after_the_signal.
+
+(* ... with an unbuffered one it is: test (full) / free + signal (dropped) / wait *)
+Theorem c09_unbuffered_signal_refuted :
+  let st := Wakeup.wrun 0 (Wakeup.winit 1) (true :: false :: false :: true :: nil) in
+  Wakeup.w_free st = true /\ Wakeup.stuck st = true.
+Proof. exact WakeupProofs.unbuffered_signal_refuted. Qed.
+Print Assumptions c09_unbuffered_signal_refuted.
+
+(* ... and in the current source (gen/TablesGen.v, regenerated on every run) every channel that the send loop
+   waits on and that is signalled with a non-blocking send is created with a buffer; the ACK signal is one of them *)
+Theorem c09_wakeup_channels_are_buffered :
+  Tables.unbuffered_wakeups = nil /\
+  existsb (fun r => String.eqb (snd (fst r)) "receivedACKSignal") Tables.window_wakeups = true.
+Proof. vm_compute. split; reflexivity. Qed.
+Print Assumptions c09_wakeup_channels_are_buffered.
 
 Example c09_ex : queue_processACK (mk_queue (mk_queueCfg 4) [None; None; None; None] 3 1) 0
                = Ok (mk_queue (mk_queueCfg 4) [None; None; None; None] 1 1, true)
